@@ -148,6 +148,7 @@ class Onset(Task):
     SWAPMAP = {"F-measure": "F-measure", "Precision": "Recall", "Recall": "Precision"}
     TOLS = [("window", ["0", "1/32", "1/16", "1/8", "1/4", "1"], ["F-measure", "Precision", "Recall"])]
     SHIFT = True
+    BIG_SHIFT = True       # all arithmetic stays exact in binary64 for shifts of 2^12..2^16 s on the dyadic lattice
 
     def gen(self, rng):
         w = gen.window(rng)
@@ -171,6 +172,12 @@ class Onset(Task):
 # blanks, numeric value, Unicode composition): label identity is string identity
 TWIN_ALPHABETS = [["a", "A", "b", "B"], ["verse", "Verse", "VERSE", "chorus"], ["x", " x", "x ", "y"],
                   ["1", "01", "1.0", "2"], ["\u00e9", "e\u0301", "e"], ["", " ", "a"]]
+
+
+# names that are pairwise distinct under str.lower() (the documented normalisation of util.index_labels) although some of
+# them coincide under stronger foldings (casefold, compatibility normalisation)
+FOLD_TWINS = ["Stra\u00dfe", "Strasse", "\ufb01n", "fin", "\u017f", "s"]
+assert len({x.lower() for x in FOLD_TWINS}) == len(FOLD_TWINS)
 
 
 def pick_alphabet(rng, default):
@@ -267,6 +274,8 @@ class Segment(Task):
             # label identity is identity modulo case (util.index_labels, case_sensitive=False)
             names = sorted(set(x.lower() for x in labs))
             new = ["L%d_%d" % (rng.randint(0, 99), i) for i in range(len(names))]   # distinct also modulo case
+            if len(names) <= len(FOLD_TWINS) and rng.random() < 0.3:
+                new = list(FOLD_TWINS[:len(names)])
             rng.shuffle(new)
             m = dict(zip(names, new))
             out[side] = [ivs, [m[x.lower()] for x in labs]]
@@ -342,6 +351,8 @@ class Hierarchy(Task):
             ivs, labs = inp[side]
             names = sorted({x.lower() for lv in labs for x in lv})
             new = ["N%d_%d" % (rng.randint(0, 99), i) for i in range(len(names))]   # distinct also modulo case
+            if len(names) <= len(FOLD_TWINS) and rng.random() < 0.3:
+                new = list(FOLD_TWINS[:len(names)])
             rng.shuffle(new)
             m = dict(zip(names, new))
             out[side] = [ivs, [[m[x.lower()] for x in lv] for lv in labs]]
@@ -600,6 +611,7 @@ class Transcription(Task):
               ("F-measure", "F-measure_no_offset"), ("Precision_no_offset", "Onset_Precision"),
               ("Recall_no_offset", "Onset_Recall"), ("F-measure_no_offset", "Onset_F-measure")]
     SHIFT = True
+    BIG_SHIFT = True
     PERM_SCORES = _prf + ["Onset_Precision", "Onset_Recall", "Onset_F-measure", "Offset_Precision", "Offset_Recall",
                           "Offset_F-measure"]
 
@@ -635,7 +647,9 @@ class Transcription(Task):
             u = rng.random()
             if u < 0.15:
                 continue
-            d_on = rng.choice([0, 0, Fr(1, 16), -Fr(1, 16), Fr(1, 32), Fr(1, 8)])
+            # 51/1024 and 52/1024 s straddle the default 50 ms onset tolerance after the code's 4-decimal rounding
+            d_on = rng.choice([0, 0, Fr(1, 16), -Fr(1, 16), Fr(1, 32), Fr(1, 8), Fr(51, 1024), -Fr(51, 1024),
+                               Fr(52, 1024)])
             d_off = rng.choice([0, 0, Fr(1, 16), Fr(1, 8), -Fr(1, 16), Fr(1, 2)])
             dm = rng.choice([0, 0, 0, Fr(1, 4), -Fr(3, 8), 1, 12])
             on2 = max(Fr(0), on + d_on)
